@@ -122,7 +122,7 @@ func c01(c *evid.Ctx) {
 	r := c.R.Fork("c01")
 	corpus := hostile.LoadCorpus(filepath.Join(repoDir(), "krpc/testdata/fuzz/Fuzz"))
 	cfgs := c01configs()
-	perCfg := c.Scale(40000, 2000000) / len(cfgs) * c.NBatch
+	perCfg := c.Scale(40000, 600000) / len(cfgs) * c.NBatch
 	if perCfg < 50 {
 		perCfg = 50
 	}
@@ -133,11 +133,11 @@ func c01(c *evid.Ctx) {
 		}
 		c01inbound(c, r, cf, perCfg, corpus, &alloc)
 	}
-	ops := c.Scale(200, 10000)
+	ops := c.Scale(200, 3000)
 	for i := 0; i < ops && c.NumViolations() < 20; i++ {
 		c01hostileReplies(c, r, gen.Pick(r, cfgs), i, &alloc)
 	}
-	nm := c.Scale(16, 400)
+	nm := c.Scale(16, 160)
 	for i := 0; i < nm && c.NumViolations() < 20; i++ {
 		c01maintainer(c, r, i, &alloc)
 	}
